@@ -95,6 +95,9 @@ LeafSubsBefore(tr, su, id) == Cardinality({ <<i, j>> \in (1..(su - 1)) \X (1..8)
 \* "ok" | "bad" | "na" (outside the domain of the definition: reactions, ill-formed input, subjects, ambiguous instance numbers, divergence)
 RefVerdict(tr, root, reacts) ==
   IF ~(RefDomain(root) /\ TermWF(root) /\ AllFinOk(tr) /\ ~reacts /\ WFInput(Arr(tr))) THEN "na"
+  \* inner probe-2 instances are numbered in creation order across ALL subscribers: "k-th outer item = instance k" is the real
+  \* numbering only while one sink subscribes (or nothing is ever sent to an inner probe)
+  ELSE IF AnyProbe2(root) /\ ~OneSink(tr) /\ (\E i \in 1..Len(tr) : Arr(tr)[i].s = 2) THEN "na"
   ELSE LET f == Flat(tr)
            arr == Arr(tr)
            ids == LeafIds(root)
